@@ -129,14 +129,14 @@ def _judge_inner(te, outs, cplx):
     return 'ok', len([v for v in outs.values() if v is not None])
 
 
-def _on_cut(t):
+def _on_cut(t, env=None):
     """t = dump node; True when its argument lies (to 1e-30) on the branch cut of the function: the value there is a convention and the
     function is discontinuous, so the point is not 'well-conditioned'."""
     h = t[0]
     eps = mpf(10) ** -30
 
     def arg(i=1):
-        return oracle_e.Evaluator({}).ev(t[i])
+        return oracle_e.Evaluator(env or {}).ev(t[i])
 
     def re_im(v):
         return (v.real, v.imag) if isinstance(v, mpc) else (v, mpf(0))
@@ -178,7 +178,7 @@ def _on_cut(t):
         if h == 'Mul':
             for term in t[2:]:
                 if term[2][0] != 'Integer':
-                    x, y = re_im(oracle_e.Evaluator({}).ev(term[1]))
+                    x, y = re_im(oracle_e.Evaluator(env or {}).ev(term[1]))
                     if abs(y) < eps and x < eps:
                         return True
             return False
